@@ -202,6 +202,7 @@ def main(tier):
     chk.rule("TAKE", "hand-out for broadcast only from Proved", floor=1)
     chk.rule("READY", "the status view reports ready only with mined dependencies", floor=2)
     chk.rule("FIXPT", "the dead set is closed over dependents to a fixpoint", floor=1)
+    chk.rule("SWEEP", "promotions precede every recorded determination in advance_migration", floor=1)
     chk.rule("control", "positive controls", floor=2)
 
     w = zf.World(extract.facts_dir("all"), ["zcash_pool_migration", "zcash_client_sqlite",
@@ -243,6 +244,7 @@ def main(tier):
     take_guard(chk, w, names)
     ready_needs_deps(chk, w)
     dead_set_fixpoint(chk, w)
+    sweep_order(chk, w)
     columns(chk, w)
     dirty_rules(chk, w)
     change_detect(chk, w)
@@ -674,6 +676,35 @@ def _deps_mined_loop(w, f):
         if o and o[0] == "disc" and v == 0 and re.search(r"^next\(&.*into_iter\(arg1\)", defuse.show(o[1])):
             return True
     return False
+
+
+def sweep_order(chk, w):
+    """SWEEP: record_satisfiability seeds its dead set from the transactions that can never be mined and persists
+    `Inherited` marks on everything depending on them. In advance_migration the in-flight sweep therefore
+    applies its PROMOTIONS (mark_broadcast / mark_mined of what the scan has seen) before any determination is
+    recorded: no promotion may still be reachable after a record_satisfiability call, or a transaction about to
+    be promoted is counted as expired-unmined and its dependents are marked dead for good."""
+    fs = [f for f in w.fns.values() if f.p.endswith("satisfiability::advance_migration") and not f.is_closure()]
+    if len(fs) != 1:
+        chk.fail("SWEEP", "missing", "advance_migration not found")
+        return
+    b = fs[0].body
+    proms = [(bb, t) for bb, t in b.calls() if not b.blocks[bb].cleanup and t.callee.indirect is None and
+             re.search(r"MigrationState>?::(mark_mined|mark_broadcast)$", t.callee.target_p())]
+    recs = [(bb, t) for bb, t in b.calls() if not b.blocks[bb].cleanup and t.callee.indirect is None and
+            t.callee.target_p().endswith("::record_satisfiability")]
+    if not proms or not recs:
+        chk.fail("SWEEP", "anchors", "promotions (%d) or record_satisfiability calls (%d) not found in advance_migration"
+                 % (len(proms), len(recs)), fs[0].span.loc())
+        return
+    late = [(pb, pt) for pb, pt in proms if any(pb in b.reachable(rb) for rb, _rt in recs)]
+    if not late:
+        chk.ok("SWEEP", "advance_migration: all %d promotions (mark_broadcast / mark_mined) come before the first of the %d "
+               "record_satisfiability calls on every path" % (len(proms), len(recs)), sample=True)
+    else:
+        chk.fail("SWEEP", "promotion-after-record", "%s is still reachable after record_satisfiability has run: a transaction "
+                 "about to be promoted is treated as never-mined when the dead set is closed" %
+                 late[0][1].callee.target_p().rsplit("::", 1)[-1], late[0][1].span.loc())
 
 
 # ---------------------------------------------------------------------- COLS
